@@ -61,7 +61,7 @@ def _run_unit(job):
     out = {"unit": None, "results": [], "covers": {}, "paths": 0, "error": None, "executed": {}, "stats": {}, "kind": "", "target": ""}
     try:
         mod = importlib.import_module(modname)
-        u = mod.UNITS[idx]
+        u = all_units(mod)[idx]
         case = u.cases[case_i]
         out["unit"] = u.unit_name(case)
         out["kind"] = type(u).__mro__[1].__name__ if hasattr(u, "target") else "Lemma"
@@ -95,6 +95,14 @@ def _kf_match(f, label):
         return True
     rx = f.get("obligation_regex")
     return bool(rx and re.fullmatch(rx, label))
+
+
+def all_units(mod):
+    """UNITS plus units borrowed from other properties' contract modules (resolved after import to avoid cycles)"""
+    if not hasattr(mod, "_ALL_UNITS"):
+        late = getattr(mod, "LATE_UNITS", None)
+        mod._ALL_UNITS = list(mod.UNITS) + (list(late()) if late else [])
+    return mod._ALL_UNITS
 
 
 def load_known(prop):
@@ -136,7 +144,7 @@ def main(argv=None):
         traceback.print_exc()
         return 3
     jobs = []
-    for i, u in enumerate(mod.UNITS):
+    for i, u in enumerate(all_units(mod)):
         if u.tier == "thorough" and a.tier != "thorough":
             continue
         for ci, case in enumerate(u.cases):
@@ -225,7 +233,7 @@ def main(argv=None):
         checker_errors.append(f"{u}: vacuous (no satisfiable path reaches an exit)")
 
     units_by_name = {}
-    for i, u in enumerate(mod.UNITS):
+    for i, u in enumerate(all_units(mod)):
         for case in u.cases:
             units_by_name[u.unit_name(case)] = (u, case)
 
@@ -412,7 +420,7 @@ def replay_file(path):
                 v, info = b.replay(rec)
                 print(json.dumps({"violated": v, "info": info}, default=str, indent=1))
                 return 1 if v else 0
-    for u in mod.UNITS:
+    for u in all_units(mod):
         for case in u.cases:
             if u.unit_name(case) == rec.get("unit"):
                 rep = u.replay(rec.get("model") or {}, label.split("::")[-1], case)
